@@ -501,6 +501,18 @@ def fcmp(pred, a, b):
         return TRUE
     if pred == 'false':
         return FALSE
+    if a.op == 'const' and b.op == 'const' and a.w in (32, 64):
+        x, y = fval(a), fval(b)
+        uno = x != x or y != y
+        if uno:
+            r = pred[0] == 'u' and pred != 'uno' or pred == 'uno'
+        elif pred == 'ord':
+            r = True
+        elif pred == 'uno':
+            r = False
+        else:
+            r = {'eq': x == y, 'ne': x != y, 'lt': x < y, 'le': x <= y}[pred[1:]]
+        return TRUE if r else FALSE
     return mk('fcmp', (pred, a, b), 1)
 
 
@@ -580,6 +592,14 @@ def select(c, a, b):
         return select(not_(c), b, a)
     if c.op == 'icmp' and c.args[0] == 'ne':
         return select(not_(c), b, a)
+    if c.op == 'icmp' and c.args[0] in ('ult', 'ule', 'slt', 'sle') and a.w > 1:
+        # (p < q ? p : q) is min, (p < q ? q : p) is max — canonical commutative form, signedness from the predicate
+        p_, q_ = c.args[1], c.args[2]
+        sg = 's' if c.args[0][0] == 's' else 'u'
+        if a is p_ and b is q_:
+            return arith(sg + 'min', a, b)
+        if a is q_ and b is p_:
+            return arith(sg + 'max', a, b)
     if a.w == 1:
         if a.op == 'const' and b.op == 'const':
             return c if a.args[0] else not_(c)
